@@ -18,6 +18,9 @@ CHECKS = {
  "C19": (E2, "runtime monitoring + Go race detector: real HTTP middlewares behind httptest servers and real gRPC interceptors over bufconn, handler-side context probes, downstream header/metadata taps, counting ID funcs, recorder-vs-capture comparison; reference model of the documented option semantics",
          "Option combinations x inbound values x HTTP/gRPC unary/stream x call chains of depth 1-4 are executed against the real middlewares; samplers and StreamCanceler are hammered from 16 goroutines under -race; race reports are read from the GORACE log and de-duplicated by function pair.",
          "Trusts net/http, grpc-go and bufconn; ambiguous option orders accept both documented readings; non-ASCII IDs not sent over real gRPC hops (grpc-go refuses them)."),
+ "C17": (E2, "runtime monitoring + Go race detector: per-format constructive generators and single-point corruptions against the real ValidateFormat/ValidatePattern, independent grammar recognisers as second opinion, per-operation expected verdicts from 1-16 goroutines sharing the pattern cache, cache-invariant hook at quiescent points",
+         "Valid-by-construction and malformed-by-construction instances of the 14 formats, RE2 patterns from a grammar with matching/non-matching values, and concurrent rounds (child processes, race log read back) are executed against the real validators.",
+         "Debatable spellings (leap seconds, name-addr e-mails, leading zeros...) are not generated in either direction; hostname and uri misjudgements are listed known findings per corruption class."),
  "C18": (E2, "runtime monitoring: generated workloads against the real pkg/http/grpc error code, reference-model oracle over recorded results",
          "Every generated error sequence is merged under every parenthesisation with fresh originals and judged by an oracle computed from the case description; HTTP/gRPC status tables are enumerated exhaustively (8 flag combinations x names).",
          "Trusts the Go runtime, errors.Is/As, grpc status package. Message separator not asserted."),
